@@ -95,7 +95,21 @@ def same_object(a, b):
 
 @_sym(same_object)
 def _same_object(interp, a, b):
-    return a is b
+    # immutable scalars (numbers, logicals, text, error values) are compared by kind and value: clause evaluation may
+    # have merged `x if c else y` into one term, and which of two equal scalars is returned is not observable
+    from .values import Sym, SReal
+    if a is b:
+        return True
+    if isinstance(a, Sym) and isinstance(b, Sym):
+        if type(a) is not type(b):
+            return False
+        t = tm.mk_eq(a.t, b.t)
+        if isinstance(a, SReal) and (a.fin is not None or b.fin is not None):
+            fa = a.fin if a.fin is not None else tm.TRUE
+            fb = b.fin if b.fin is not None else tm.TRUE
+            t = tm.mk_and(fa, fb, t)
+        return t.val if t.is_const else SBool(t)
+    return False
 
 
 def is_canonical_decimal(s):
